@@ -133,6 +133,26 @@ def r1_one_pipeline(repo=None):
         r.violation(m.rel, TL + "._read", "length `%s` vs slices %s (same key: %s)" % (norm(ast.unparse(lv)), sorted(bounds, key=str), key_same),
                     "the length branch and the data branch of _read do not use the same slice bounds / key", line=node.lineno)
     cbf = m.fn(RD + "._combine_blocks")
+    # the dictionary of blocks is filled directory by directory and file by file: its insertion order is the time order only for a
+    # single top-level directory, so the merge must walk it in key order
+    dparam = [a.arg for a in cbf.args.args if a.arg != "self"][0]
+    walks = [lp for lp in ast.walk(cbf) if isinstance(lp, ast.For) and any(isinstance(x, ast.Name) and x.id == dparam for x in ast.walk(lp.iter))]
+    if not walks:
+        raise AnalysisError("%s._combine_blocks: loop over the block dictionary `%s` not found" % (RD, dparam))
+    for lp in walks:
+        it = lp.iter
+        site_ = "%s:%s %s._combine_blocks `for ... in %s`" % (m.rel, lp.lineno, RD, norm(ast.unparse(it))[:50])
+        if isinstance(it, ast.Call) and pyfront.call_name(it) == "sorted" and not any(k.arg == "reverse" for k in it.keywords):
+            r.ok(site_, "blocks are merged in ascending key order whatever order they were collected in")
+        else:
+            base = it.func.value if isinstance(it, ast.Call) and isinstance(it.func, ast.Attribute) and it.func.attr in ("items", "keys", "values") else it
+            if isinstance(base, ast.Name) and base.id == dparam:
+                r.violation(m.rel, RD + "._combine_blocks", "for ... in %s" % norm(ast.unparse(it))[:60], "the blocks are merged in the order they were "
+                            "inserted: with several top-level directories (or sessions interleaved over them) that is not the sample "
+                            "order - adjacent blocks are not merged, keys come out unsorted, read_vector reports gaps in gap-free data",
+                            line=lp.lineno)
+            else:
+                raise AnalysisError("%s._combine_blocks: iteration `%s` over the block dictionary not recognised" % (RD, norm(ast.unparse(it))[:60]))
     if not any(isinstance(n, ast.Name) and n.id == "len_only" for n in ast.walk(cbf)):
         raise AnalysisError("%s._combine_blocks does not use len_only" % RD)
 
@@ -395,11 +415,33 @@ def promote(fk, kind, size):
     return order[max(order.index(fk), order.index(other))]
 
 
+def re_scalar(name):
+    import re as _re
+    return bool(_re.fullmatch(r"u?int(8|16|32|64)?|float(16|32|64|128)?|complex(64|128|256)?|longdouble|half|single|double|intc|uintc|short|ushort|longlong|ulonglong", name))
+
+
 def r6_lossless_conversion(repo=None):
     r = Rule("C08.R6", "read_vector converts to a floating type that represents every element value exactly (tables)")
     m = pyfront.mod("digital_rf_hdf5", repo)
     q = RD + ".read_vector"
     f = m.fn(q)
+    # positive evidence first: the stored byte order travels with the *dtype* of the data (field dtypes of the (r, i) records
+    # included); `.view(<scalar type>)` - `dtype.type`, np.int16 ... - re-reads the raw bytes in the host's order
+    for c in ast.walk(f):
+        if isinstance(c, ast.Call) and isinstance(c.func, ast.Attribute) and c.func.attr == "view" and len(c.args) == 1:
+            a0 = c.args[0]
+            if isinstance(a0, ast.Name):
+                defs = [x.value for x in ast.walk(f) if isinstance(x, ast.Assign) and any(isinstance(t, ast.Name) and t.id == a0.id for t in x.targets)]
+                a0 = defs[0] if len(defs) == 1 else a0
+            scalar = (isinstance(a0, ast.Attribute) and a0.attr == "type") or (
+                isinstance(a0, ast.Attribute) and isinstance(a0.value, ast.Name) and a0.value.id in ("np", "numpy")
+                and re_scalar(a0.attr))
+            if scalar:
+                r.violation(m.rel, q, norm(ast.unparse(c))[:70], "the stored samples are re-interpreted through a scalar *type*, which has no byte "
+                            "order: a big-endian channel read on a little-endian host comes back byte-swapped (read and read_vector "
+                            "then disagree about the same samples)", line=c.lineno)
+                r.guard(1)
+                return r
     consts = []
     for c in _call(f, "np.promote_types"):
         consts.append((pyfront.const(c.args[0]), c))
@@ -771,7 +813,9 @@ EXPLANATION = (
     ' glob.glob in the reader modules is wrapped in glob.escape (a directory named ch[1] is not a pattern). Does NOT '
     'decide the split/merge relation or bounds arithmetic. R10: single-entry memos of the reader classes (`if K != '
     'self.key: self.value = V; self.key = K`, found as the CFG region behind the differs edge of the comparison, helpers '
-    'inlined): every parameter in the def-use closure of V is in the closure of K.')
+    'inlined): every parameter in the def-use closure of V is in the closure of K. R1 also: _combine_blocks walks the '
+    'block dictionary in sorted key order. R6 also: `.view(<scalar type>)` in read_vector (dtype.type, np.int16 ...) is a'
+    ' violation - a scalar type carries no byte order.')
 TECHNIQUE = ('Python ast; sibling comparison of the data and length pipelines (homomorphic image under len); CFG must-pass for guards; float-taint; promotion table')
 ASSUMPTIONS = ["numpy.promote_types table for float x integer types (documented)", "h5py dataset slicing returns rows [a, b)"]
 FILES = ["python/digital_rf/digital_rf_hdf5.py", "python/digital_rf/digital_metadata.py"]
